@@ -1,4 +1,4 @@
-\* C01: script generation: every pair of programs (<= 2 writes per side, empty / non-empty), one SHAPE line each
+\* C01: script generation: every pair of programs (<= 2 writes per side, empty / non-empty) and every back-pressure pair, one SHAPE line each
 SPECIFICATION Spec
 CONSTANTS
   MaxW = 2
@@ -7,4 +7,4 @@ CONSTANTS
   Proto = "tcp"
   Gen = TRUE
   MaxK = 1
-INVARIANTS Inv_Prefix Inv_Complete Inv_HalfClose Inv_Closed Inv_Other
+INVARIANTS Inv_Prefix Inv_Complete Inv_HalfClose Inv_Closed Inv_Independent Inv_Other
